@@ -246,7 +246,7 @@ fn trig_check(start: f32, sweep: f32, eps: f64) -> Result<f64, String> {
     }
     let want_op = if w64.abs() >= 180.0 { 1 } else { 0 };
     // within f32 rounding of 180 either operation describes the same half plane
-    if op != want_op && (w64.abs() - 180.0).abs() > 0.001 {
+    if op != want_op && (w64.abs() < 179.999 || w64.abs() >= 180.001) {
         return Err(format!("class=wrong_operation start={} sweep={} op={} expected={}", start, sweep, op, want_op));
     }
     // the two rays of an Intersection sector must be in proper position (Coq: K18_tiny_sweep_opposite_side = false)
